@@ -27,6 +27,7 @@ import (
 	"tkestack.io/kvass/pkg/utils/types"
 
 	"sync"
+	"sync/atomic"
 	"time"
 
 	parser "github.com/VictoriaMetrics/VictoriaMetrics/lib/protoparser/prometheus"
@@ -48,6 +49,8 @@ var (
 )
 
 type exploringTarget struct {
+	// dropped is set (atomically) once the target left the tracked targets
+	dropped   int32
 	exploring bool
 	job       string
 	target    *target.Target
@@ -118,6 +121,7 @@ func (e *Explore) ApplyConfig(cfg *prom.ConfigInfo) error {
 			newTargets[hash] = v
 		} else {
 			deletedJobs[v.job] = struct{}{}
+			atomic.StoreInt32(&v.dropped, 1)
 		}
 	}
 
@@ -151,6 +155,11 @@ func (e *Explore) UpdateTargets(targets map[string][]*discovery.SDTargets) {
 			}
 		}
 	}
+	for hash, old := range e.targets {
+		if all[hash] != old {
+			atomic.StoreInt32(&old.dropped, 1)
+		}
+	}
 	e.targets = all
 }
 
@@ -172,11 +181,9 @@ func (e *Explore) Run(ctx context.Context, con int) error {
 					tar := temp
 					hash := tar.target.Hash
 					// the target may have left discovery while it waited in the queue (and may be back as a new
-					// object that is explored on its own): don't probe what is no longer tracked
-					e.targetsLock.Lock()
-					tracked := e.targets[hash] == tar
-					e.targetsLock.Unlock()
-					if !tracked {
+					// object that is explored on its own): don't probe what is no longer tracked.
+					// targetsLock must not be taken here: Get holds it while it waits for room in the queue
+					if atomic.LoadInt32(&tar.dropped) != 0 {
 						continue
 					}
 
